@@ -14,6 +14,7 @@ SKIP = ('GetIterator', 'GetIteratorAt', 'GetBackwardIterator', 'GetBackwardItera
 
 # (alias, harness argument declarations, call arguments, loops?)
 ISLOC = '_ZNK6muscle5QueueIiE28IsItemLocatedInThisContainerERKi'
+MIRROR = {'InternalizeIndex': '', 'NextIndex': '', 'PrevIndex': '', 'RemoveItemAt__1': 'mv_a0 = i;', 'RemoveItemAt__2': 'mv_a0 = i;', 'RemoveHeadMulti': 'mv_a0 = n;', 'RemoveTailMulti': 'mv_a0 = n;', 'ReplaceItemAt__2': 'mv_a0 = i;', 'InsertItemAt__2': 'mv_a0 = i;', 'Clear': 'mv_a0 = b;', 'EnsureSize': 'mv_a0 = n;', 'ReverseItemOrdering': 'mv_a0 = a; mv_a1 = b;', 'IndexOf': 'mv_a0 = a; mv_a1 = b;', 'LastIndexOf': 'mv_a0 = a; mv_a1 = b;'}
 H = [
     ('Queue_int__InternalizeIndex', '_ZNK6muscle5QueueIiE16InternalizeIndexEj', 'QI *q; unsigned int i;', 'q, i', False),
     ('Queue_int__NextIndex', '_ZNK6muscle5QueueIiE9NextIndexEj', 'QI *q; unsigned int i;', 'q, i', False),
@@ -60,6 +61,63 @@ def lower(flags=None):
         shutil.rmtree(wd, ignore_errors=True)
     _cache[key] = (L, hdr, body)
     return _cache[key]
+
+
+def make_replay(op):
+    """native replay of the verifier's counterexample: rebuild the pre-state ring from the ghost mirror in the trace,
+    run the real Queue<int32> operation (real headers of the tree under test) and compare with an ideal deque"""
+    import subprocess, json
+    from mv.runner import trace_values
+
+    def replay(job, obs, res, workroot):
+        tr = res.traces.get(obs[0]['name'])
+        if not tr:
+            return dict(reproduced=False, text='the verifier gave no trace for this obligation')
+        vals = trace_values(tr)
+        wd = os.path.join(workroot, 'replay_' + job.name)
+        os.makedirs(wd, exist_ok=True)
+        inp = os.path.join(wd, 'input.txt')
+        with open(inp, 'w') as f:
+            f.write('op=%s\n' % op)
+            import re as _re
+            for k, v in sorted(vals.items()):
+                if isinstance(v, list):
+                    continue      # whole-array initialisation step; the element assignments follow
+                f.write('%s=%s\n' % (_re.sub(r'\[(\d+)l*\]', r'[\1]', k), _num(v)))
+        exe = os.path.join(wd, 'queue_replay')
+        cmd = ['c++', '-std=gnu++11', '-O0', '-w', '-fno-access-control', '-DNDEBUG', '-DMUSCLE_ENABLE_ZLIB_ENCODING', '-DMUSCLE_NO_EXCEPTIONS', '-DMUSCLE_SINGLE_THREAD_ONLY',
+               '-I', REPO, os.path.join(VERIF, 'native/queue_replay.cpp'), '-o', exe]
+        lib = '/repo/_build/libmuscle.a'     # Queue is header-only: the tree under test supplies the headers, the baseline library only logging symbols
+        if os.path.exists(lib):
+            cmd += [lib, '-lz', '-lpthread']
+        p = subprocess.run(cmd, stdout=subprocess.PIPE, stderr=subprocess.STDOUT, text=True)
+        if p.returncode != 0:
+            return dict(reproduced=False, text='native replay did not build: ' + p.stdout[-800:])
+        try:
+            r = subprocess.run([exe, inp], stdout=subprocess.PIPE, stderr=subprocess.STDOUT, text=True, timeout=20)
+            out, rc = r.stdout, r.returncode
+        except subprocess.TimeoutExpired:
+            out, rc = 'REPRODUCED: the real operation did not return within 20 s on this input', 1
+        keep = os.path.join(VERIF, 'replays', 'C16-%s-input.txt' % job.name)
+        os.makedirs(os.path.dirname(keep), exist_ok=True)
+        with open(keep, 'w') as f:
+            f.write(open(inp).read())
+        return dict(reproduced=(rc == 1 and 'REPRODUCED' in out), text='input (ghost mirror of the pre-state + arguments):\n' + open(inp).read() + '\nnative run (exit %s):\n%s' % (rc, out),
+                    file=os.path.join(VERIF, 'native/queue_replay.cpp'), cmd=' '.join(cmd) + ' && ' + exe + ' ' + keep)
+    return replay
+
+
+def _num(x):
+    s = str(x)
+    if s in ('TRUE', 'true'):
+        return '1'
+    if s in ('FALSE', 'false'):
+        return '0'
+    s = s.rstrip('uUlL')
+    try:
+        return str(int(s))
+    except ValueError:
+        return '0'
 
 
 def _calls(body, fn, callee, seen=None):
@@ -115,8 +173,11 @@ def jobs(tier):
         hdr, body = L.sliced([mangled])
         # contracts of functions outside the slice are dropped (their subjects are not in this TU)
         present = set(re.findall(r'\b(_Z[A-Za-z0-9_]+)\(', hdr))
-        har = ('\nvoid h_main(void) { mv_init_globals(); unsigned int k_, j_; int a_, b_, c_, d_; mv_k = k_; mv_j = j_; mv_v0 = a_; mv_v1 = b_; mv_vm1 = c_; mv_vj = d_; %s %s(%s); '
-               '__CPROVER_assert(0, "MV_CANARY: end of harness reachable"); }\n' % (decls, alias, args))
+        mir = MIRROR.get(alias.replace('Queue_int__', ''), '')
+        har = ('\nvoid h_main(void) { mv_init_globals(); unsigned int k_, j_; int a_, b_, c_, d_; mv_k = k_; mv_j = j_; mv_v0 = a_; mv_v1 = b_; mv_vm1 = c_; mv_vj = d_;\n'
+               '  unsigned int s_, n_, h_; _Bool sm_; int ai_; mv_size = s_; mv_count = n_; mv_head = h_; mv_small = sm_; mv_ai = ai_;\n'
+               '  int sl0_, sl1_, sl2_, sl3_, sl4_, sl5_, sl6_, sl7_; mv_slot[0] = sl0_; mv_slot[1] = sl1_; mv_slot[2] = sl2_; mv_slot[3] = sl3_; mv_slot[4] = sl4_; mv_slot[5] = sl5_; mv_slot[6] = sl6_; mv_slot[7] = sl7_;\n'
+               '  %s %s %s(%s); __CPROVER_assert(0, "MV_CANARY: end of harness reachable"); }\n' % (decls, mir, alias, args))
         tu = ('#define MV_QCAP %d\n' % cap + hdr + '#define Queue_int__IsItemLocatedInThisContainer %s\n' % ISLOC + ''.join('#undef %s\n#define %s %s\n' % (a, a, m) for a, m, _, _, _ in H) + '\n#line 1 "%s/contracts/queue.h"\n' % VERIF + only_present(contracts, present, dict([(a, m) for a, m, _, _, _ in H] + [('Queue_int__IsItemLocatedInThisContainer', ISLOC)])) + '\n' + body + har)
         J.append(Job('q_' + alias.replace('Queue_int__', ''), tu, 'h_main', enforce=[mangled], loops=False,
                      replace=[ISLOC] if ('\n' + ISLOC + '(') not in '' and _calls(body, mangled, ISLOC) else [],
@@ -124,6 +185,7 @@ def jobs(tier):
                      klass='bounded' if loops else 'proved',
                      bound=('allocated slots in the pre-state <= %d (every head offset, count and content symbolic), loops unwound with unwinding assertions' % cap) if loops else None,
                      functions=[(Q_H, 'Queue<int32>::' + alias.replace('Queue_int__', ''))],
+                     replay=make_replay(alias.replace('Queue_int__', '')) if alias.replace('Queue_int__', '') not in ('InternalizeIndex', 'NextIndex', 'PrevIndex') else None,
                      malloc_may_fail=True, timeout=int(os.environ.get('MV_TIMEOUT', '0')) or (900 if tier == 'quick' else 3600), split=0))
     return J
 
